@@ -17,5 +17,5 @@ for p in sens/$glob.diff seeded/$glob/patch.diff; do
     [ $rc -eq 2 ] && line="$line($(echo "$out" | grep -m1 -i infrastr | cut -c1-160))"
   done
   echo "$line"
-  git -C /repo checkout -- . 
+  git -C /repo checkout -- . ; git -C /repo clean -fdq -e httpClient/httpClient
 done
